@@ -18,15 +18,20 @@ Actors
   (program counter `rpc`): `start` = `get_state` region + `start_task` region,
   `stop` = `stop_task` region + `_stop_requested.set()`, `join` (blocking:
   enabled only when the task thread has ended), `is_running`, `set_settings`,
-  `get_settings`, `get_pending_settings`.
-  `__enter__` = `start`; `__exit__` and `release_rpc_object` = `stop` ; `join`.
+  `get_settings`, `get_pending_settings`, `get_status`.
+  `__enter__` = `start`.  The compositions `__exit__` (= `stop(); join()`) and `release_rpc_object`
+  (= `if not _joined: stop(); join()`, run by the RPC worker when the object is removed from the context; whatever
+  `join` raises there is logged and dropped, and the runner is gone afterwards: `phase = removed`) are sequenced by
+  the worker's program counter (`compStop c` → `stopMid c` → `compJoin c`).
+* `update_settings` = `if fifo` / `fifo.pop()` + assignment / `sig_settings_updated.publish(self.settings)`;
+  the task body may also write `self.status` (`setStatus`).
 
 Python exceptions are values of `Res`.  Branches that the code has but that
 turn out to be unreachable (failing `assert`s) are modelled as they are and
 proved unreachable in `Props/C10.lean`.
 
 Ghost fields (never read by a guard): `runs`, `started`, `stopFirst`,
-`runOutcome`, `posted`, `lastPosted`.
+`runOutcome`, `posted`, `lastPosted`, `adopted`, `published`.
 
 Core Lean only (the driver exe links this file).
 -/
@@ -51,6 +56,7 @@ inductive Pc
   | goRun     -- left that region with RUNNING; about to call `task.run()`
   | inRun     -- inside `task.run()`
   | inUpd     -- inside `update_settings`, between `if self._settings_fifo:` and `.pop()`
+  | inPub     -- inside `update_settings`, value adopted, `sig_settings_updated.publish` not yet called
   | ranOut (o : Outcome)  -- `run()` has ended, final region not yet entered
   | exiting   -- after the last region; thread function returning
   | ended     -- thread has ended (`Thread.join` returns)
@@ -59,12 +65,29 @@ inductive Pc
 /-- the runner object: under construction, available, or construction raised -/
 inductive Phase
   | ctor0 | ctor1 | up | failed
+  | removed     -- `release_rpc_object` has run: the runner was removed from the context
   deriving DecidableEq, Repr
 
-/-- program counter of the runner's RPC worker inside a multi-region operation -/
-inductive Rpc
-  | idle | startMid | stopMid
+/-- in which composition a `stop` / `join` is running -/
+inductive Comp
+  | plain      -- `stop()` / `join()` called as such
+  | exit       -- inside `__exit__`
+  | release    -- inside `release_rpc_object`
   deriving DecidableEq, Repr
+
+/-- program counter of the runner's RPC worker inside a multi-region operation or a composition -/
+inductive Rpc
+  | idle
+  | startMid                -- `start`: between the `get_state` and the `start_task` region
+  | compStop (c : Comp)     -- composition entered, its `stop()` not yet begun
+  | stopMid (c : Comp)      -- `stop`: between the `stop_task` region and `_stop_requested.set()`
+  | compJoin (c : Comp)     -- the composition's `stop()` returned, its `join()` not yet done
+  deriving DecidableEq, Repr
+
+/-- where the worker continues when a `stop()` returns -/
+def Rpc.afterStop : Comp → Rpc
+  | .plain => .idle
+  | c      => .compJoin c
 
 inductive Res
   | none                      -- internal action, nothing returned
@@ -89,6 +112,7 @@ structure State where
   slot      : Option Nat      -- `task._settings_fifo` (deque, maxlen 1)
   settings  : Option Nat      -- `task.settings`
   joined    : Bool            -- `runner._joined`
+  status    : Option Nat      -- `task.status`
   -- ghost
   runs       : Nat            -- number of invocations of `task.run()`
   started    : Bool           -- a `start_task` region moved READY_TO_RUN → RUNNING
@@ -96,25 +120,48 @@ structure State where
   runOutcome : Option Outcome -- how `run()` ended
   posted     : Bool           -- a value was posted since the last successful update
   lastPosted : Option Nat     -- the most recently posted value
+  adopted    : List Nat       -- values the task adopted (`self.settings = fifo.pop()`), oldest first
+  published  : List Nat       -- values handed to `sig_settings_updated.publish`, oldest first
   deriving DecidableEq, Repr
 
 def init : State :=
   { st := .initial, exc := false, pc := .init, phase := .ctor0, rpc := .idle, stopReq := false,
-    slot := none, settings := none, joined := false,
-    runs := 0, started := false, stopFirst := false, runOutcome := none, posted := false, lastPosted := none }
+    slot := none, settings := none, joined := false, status := none,
+    runs := 0, started := false, stopFirst := false, runOutcome := none, posted := false, lastPosted := none,
+    adopted := [], published := [] }
 
 inductive Act
   -- task thread
-  | initOk | initFail | wake | runEnter | updCheck | updPop | runEnd (o : Outcome) | mark | threadEnd
+  | initOk | initFail | wake | runEnter | updCheck | updPop | updPub | setStatus (v : Nat)
+  | runEnd (o : Outcome) | mark | threadEnd
   -- runner constructor
   | ctorWait | ctorGet
   -- runner operations
   | startCheck | startKick | stopRegion | stopSet | join | isRunning
-  | setSettings (v : Nat) | getSettings | getPending
+  | setSettings (v : Nat) | getSettings | getPending | getStatus
+  | exitBegin | releaseBegin
   deriving DecidableEq, Repr
 
 /-- runner operations may begin only on an available runner whose worker is idle -/
 def State.free (s : State) : Bool := s.phase == .up && s.rpc == .idle
+
+/-- may a `stop()` begin now, and in which composition? -/
+def State.stopCtx (s : State) : Option Comp :=
+  if s.phase = .up then
+    match s.rpc with
+    | .idle => some .plain
+    | .compStop c => some c
+    | _ => none
+  else none
+
+/-- may a `join()` begin now, and in which composition? -/
+def State.joinCtx (s : State) : Option Comp :=
+  if s.phase = .up then
+    match s.rpc with
+    | .idle => some .plain
+    | .compJoin c => some c
+    | _ => none
+  else none
 
 def step (s : State) : Act → Option State
   -- ---------------------------------------------------------------- task thread
@@ -142,9 +189,19 @@ def step (s : State) : Act → Option State
   | .updPop =>
     if s.pc = .inUpd then
       match s.slot with
-      | some v => some { s with pc := .inRun, slot := none, settings := some v, posted := false }
+      | some v => some { s with pc := .inPub, slot := none, settings := some v, posted := false,
+                                adopted := s.adopted ++ [v] }
       | none   => some { s with pc := .inRun }              -- IndexError into the task body
     else none
+  | .updPub =>
+    -- `self.sig_settings_updated.publish(self.settings)`; then `return True`
+    if s.pc = .inPub then
+      match s.settings with
+      | some v => some { s with pc := .inRun, published := s.published ++ [v] }
+      | none   => some { s with pc := .inRun }
+    else none
+  | .setStatus v =>
+    if s.pc = .inRun then some { s with status := some v } else none
   | .runEnd o =>
     if s.pc = .inRun then some { s with pc := .ranOut o, runOutcome := some o } else none
   | .mark =>
@@ -175,30 +232,46 @@ def step (s : State) : Act → Option State
       else some { s with rpc := .idle }
     else none
   | .stopRegion =>
-    if s.free then
+    match s.stopCtx with
+    | none => none
+    | some c =>
       match s.st with
-      | .excInit => some s
-      | .initial => some { s with st := .stopped, stopFirst := true }
-      | .ready   => some { s with st := .stopped, stopFirst := true }
-      | _        => if s.pc = .init then some s               -- `assert self.task is not None`
-                    else some { s with rpc := .stopMid }
-    else none
+      | .excInit => some { s with rpc := Rpc.afterStop c }
+      | .initial => some { s with st := .stopped, stopFirst := true, rpc := Rpc.afterStop c }
+      | .ready   => some { s with st := .stopped, stopFirst := true, rpc := Rpc.afterStop c }
+      | _        => if s.pc = .init then some { s with rpc := .idle }   -- `assert self.task is not None`
+                    else some { s with rpc := .stopMid c }
   | .stopSet =>
-    if s.phase = .up ∧ s.rpc = .stopMid then some { s with stopReq := true, rpc := .idle } else none
+    match s.rpc with
+    | .stopMid c => if s.phase = .up then some { s with stopReq := true, rpc := Rpc.afterStop c } else none
+    | _ => none
   | .join =>
     -- `thread.join()` blocks until the thread has ended; then `get_state`, asserts, `_joined = True`
-    if s.free ∧ s.pc = .ended then
-      match s.st with
-      | .completed => some { s with joined := true }
-      | .stopped   => some { s with joined := true }
-      | .excRun    => some { s with joined := true }
-      | _          => some s
+    match s.joinCtx with
+    | none => none
+    | some c =>
+      if s.pc = .ended then
+        let ph : Phase := if c = .release then .removed else s.phase
+        match s.st with
+        | .completed => some { s with joined := true, rpc := .idle, phase := ph }
+        | .stopped   => some { s with joined := true, rpc := .idle, phase := ph }
+        | .excRun    => some { s with joined := true, rpc := .idle, phase := ph }
+        | _          => some { s with rpc := .idle, phase := ph }
+      else none
+  | .exitBegin =>
+    -- `__exit__`: `self.stop(); self.join()`
+    if s.free then some { s with rpc := .compStop .exit } else none
+  | .releaseBegin =>
+    -- `release_rpc_object`: `if not self._joined: self.stop(); self.join()`
+    if s.free then
+      if s.joined then some { s with phase := .removed } else some { s with rpc := .compStop .release }
     else none
   | .isRunning => if s.free then some s else none
   | .setSettings v =>
     if s.free then some { s with slot := some v, posted := true, lastPosted := some v } else none
   | .getSettings => if s.free then some s else none
   | .getPending  => if s.free then some s else none
+  | .getStatus   => if s.free then some s else none
 
 /-- what the action returns / raises when taken in state `s` (meaningful when `step s a ≠ none`) -/
 def res (s : State) : Act → Res
@@ -208,6 +281,8 @@ def res (s : State) : Act → Res
   | .runEnter   => .none
   | .updCheck   => .bool s.slot.isSome
   | .updPop     => match s.slot with | some _ => .bool true | none => .indexError
+  | .updPub     => .val s.settings
+  | .setStatus _ => .none
   | .runEnd _   => .none
   | .mark       => .none
   | .threadEnd  => .none
@@ -217,7 +292,7 @@ def res (s : State) : Act → Res
   | .startKick  => if s.st = .ready then .unit else .assertionError
   | .stopRegion =>
     match s.st with
-    | .excInit => .unit | .initial => .unit | .ready => .unit
+    | .excInit | .initial | .ready => .unit
     | _ => if s.pc = .init then .assertionError else .pending
   | .stopSet    => .unit
   | .join       =>
@@ -227,6 +302,9 @@ def res (s : State) : Act → Res
   | .setSettings _ => .unit
   | .getSettings => .val s.settings
   | .getPending  => .val s.slot
+  | .getStatus   => .val s.status
+  | .exitBegin   => .none
+  | .releaseBegin => .none
 
 /-- run a whole history -/
 def exec (s : State) : List Act → Option State
@@ -247,6 +325,7 @@ def threadCanMove (s : State) : Bool :=
   | .goRun => true
   | .inRun => false          -- depends on the task body (it may be blocked until a stop request)
   | .inUpd => true
+  | .inPub => true
   | .ranOut _ => true
   | .exiting => true
   | .ended => false
